@@ -426,6 +426,28 @@ def _docstring_macro_sites():
                 return True
         return False
 
+    def summary_conditions(n, ent):
+        """conditions (lists of z3 terms, from inline `a if c else b` expressions) under which node n prints the entity's summary"""
+        def is_summary(f):
+            return isinstance(f, nodes.Filter) and f.name == "meta" and f.args and isinstance(f.args[0], nodes.Const) \
+                and f.args[0].value == "summary" and isinstance(f.node, nodes.Name) and f.node.name == ent
+        out = []
+
+        def rec(e, cs):
+            if is_summary(e):
+                out.append(list(cs))
+                return
+            if isinstance(e, nodes.CondExpr):
+                c = truth(e.test, ent)
+                rec(e.expr1, cs + [c])
+                if e.expr2 is not None:
+                    rec(e.expr2, cs + [z3.Not(c)])
+                return
+            for ch in e.iter_child_nodes():
+                rec(ch, cs)
+        rec(n, [])
+        return out
+
     def walk(body, conds, ent):
         for n in body:
             if isinstance(n, nodes.If):
@@ -438,8 +460,9 @@ def _docstring_macro_sites():
                     neg.append(z3.Not(ce))
                 walk(n.else_, conds + neg, ent)
             elif isinstance(n, nodes.Output):
-                if prints_summary(n, ent):
-                    sites.append((z3.And(*conds) if conds else z3.BoolVal(True), n.lineno))
+                for extra in summary_conditions(n, ent):
+                    cs = conds + extra
+                    sites.append((z3.And(*cs) if cs else z3.BoolVal(True), n.lineno))
             else:
                 for fld in ("body", "else_"):
                     v = getattr(n, fld, None)
